@@ -96,7 +96,8 @@ class IPv6FlowSpec(NLRI):
             nlri_tmp += struct.pack('!B', type_tmp) + cls.construct_operators(data[type_tmp])
 
         if len(nlri_tmp) >= 240:
-            return struct.pack('!H', len(nlri_tmp)) + nlri_tmp
+            # 2-octet length: the high nibble of the first octet is 0xf
+            return struct.pack('!H', 0xf000 | len(nlri_tmp)) + nlri_tmp
         elif nlri_tmp:
             return struct.pack('!B', len(nlri_tmp)) + nlri_tmp
 
@@ -190,7 +191,7 @@ class IPv6FlowSpec(NLRI):
                 1: 0x00,
                 2: 0x10,
                 4: 0x20,
-                6: 0x30
+                8: 0x30
             },
             'RES': 0x00,
             'LT': 0x04,
@@ -255,13 +256,17 @@ class IPv6FlowSpec(NLRI):
         :return:
         """
         data_bin = b''
-        data_list = data.split('|')
+        # "|" separates alternatives, "&" joins the terms of one alternative
+        data_list = []
+        for group in data.split('|'):
+            for j, term in enumerate(group.split('&')):
+                data_list.append((1 if j > 0 else 0, term))
         eol = 0
-        for i, data in enumerate(data_list):
+        for i, (and_bit, data) in enumerate(data_list):
             if i == len(data_list) - 1:
                 eol = 1
-            if '&' not in data:
-                flag_dict = {'EOL': eol}
+            if data:
+                flag_dict = {'EOL': eol, 'AND': and_bit}
                 if data[0] == '=':
                     off_set = 1
                     flag_dict['EQ'] = 1
@@ -283,6 +288,9 @@ class IPv6FlowSpec(NLRI):
                 if len(hex_str) % 2 == 1:
                     hex_str = '0' + hex_str
                 value_hex = bytearray.fromhex(hex_str)
+                if len(value_hex) == 3 or 4 < len(value_hex) < 8:
+                    # the operator can only announce 1, 2, 4 or 8 octets
+                    value_hex = bytearray((4 if len(value_hex) == 3 else 8) - len(value_hex)) + value_hex
                 flag_dict['LEN'] = len(value_hex)
                 opt_flag_bin = cls.construct_operator_flag(flag_dict)
                 data_bin += struct.pack('!B', opt_flag_bin)
